@@ -3,6 +3,7 @@ package main
 import (
 	"encoding/json"
 	"fmt"
+	"math"
 	"math/rand"
 	"reflect"
 
@@ -89,6 +90,25 @@ func c06(args []string) error {
 				outAST = AST{Tag: "z"}
 			}
 			e["out"] = outAST.JSON()
+			e["members"] = []interface{}{"none"}
+			if ms := o.Members(); ms != "" {
+				if mast, merr := tokenize(ms, ro.table); merr == nil {
+					e["members"] = mast.JSON()
+				} else {
+					e["members"] = []interface{}{"s", "unparsable: " + ms}
+				}
+			}
+			z, isPoint := geojson.IsPoint(o)
+			e["ispoint"] = isPoint
+			e["z"] = []interface{}{"n", -1}
+			for k, tv := range ro.table {
+				if math.Float64bits(tv) == math.Float64bits(z) {
+					e["z"] = []interface{}{"n", k}
+				}
+			}
+			if math.IsNaN(z) {
+				e["z"] = []interface{}{"z"}
+			}
 			o2, perr2 := geojson.Parse(out1, &po)
 			e["reparsed"] = perr2 == nil
 			e["samekind"], e["fix"], e["sameans"] = false, false, false
